@@ -3,4 +3,5 @@ CONSTANTS
   Owners = {1, 2, 3}
   Design = "ordered"
 PROPERTY DetAction
+INVARIANT ClampInv
 CHECK_DEADLOCK FALSE
